@@ -335,7 +335,7 @@ func checkProofResult(result, value []byte) bool {
 		s = append(s, 0)
 	}
 	s = append(s, tempBytes...)
-	// TODO
-	//hash := crypto.Keccak256(value)
-	return bytes.Equal(s, value)
+	// the proven storage word is 32 bytes; a shorter claimed value (the 8-byte
+	// clean sequence) is the same word left-padded with zeroes
+	return bytes.Equal(s, common.LeftPadBytes(value, 32))
 }
